@@ -234,6 +234,7 @@ def dro_late_rvar(case, labels):
         z1 = m.rvar()
         z2 = m.rvar(2) if order == 'early' else None
         y1.adapt(z1)
+        e = x * z1 - x                 # an expression object stored before the second random array exists
         if order == 'after_adapt':
             z2 = m.rvar(2)
         if w2 == 'whole':
@@ -245,6 +246,7 @@ def dro_late_rvar(case, labels):
         fs.exptset(E(z1) == 0, E(z2) == 0)
         m.minsup(x + E(y1 + y2.sum()), fs)
         m.st(y1 >= z1 - x, y1 >= 0, y2 >= z2 - 2 * x, y2 >= -z2 - x, x >= 0, x <= 5)
+        m.st(E(e) <= -1)               # E(x z1 - x) = -x: x >= 1
         with quiet():
             m.solve(display=False)
         pat = [np.isnan(np.asarray(y1.get(z1), dtype=float)).ravel().tolist()]
